@@ -376,6 +376,7 @@ def replay (conjv : K → K) (half : K) (lines : List String) : IO Unit := do
   let mut lastDump : List String := []
   let mut lastBulkOk := false
   let mut justPrepared := false
+  let mut copyExpect : Option (List String) := none
   let mut mustBeUnchanged : Option String := none
   -- the implementation's own index table, as dumped by the last `index` command (for the C18 oracle)
   let mut implTbl : List (String × Nat × Nat) := []
@@ -392,6 +393,17 @@ def replay (conjv : K → K) (half : K) (lines : List String) : IO Unit := do
         tally := tally.pfail
       if implExc then mustBeUnchanged := some (" ".intercalate (cmd.take 12))
     | none => pure ()
+    -- a copied lattice defines the same model: the dump right after `copy` equals the dump right before it
+    if cmd == ["copy"] && obs == ["o ok"] && !lastDump.isEmpty then copyExpect := some lastDump
+    if cmd == ["dumplattice"] then
+      match copyExpect with
+      | some d =>
+        if obs != d then
+          let diff := ((obs.zip d).find? fun (x, y) => x != y)
+          IO.println s!"PROPFAIL[C20] cmd#{idx} the copy of the lattice differs from the original: {match diff with | some (x, y) => s!"copy=[{x}] original=[{y}]" | none => s!"{obs.length} vs {d.length} lines"}"
+          tally := tally.pfail
+      | none => pure ()
+      copyExpect := none
     if cmd == ["dumplattice"] then
       match mustBeUnchanged with
       | some c =>
